@@ -48,7 +48,7 @@ func repoDir() string {
 	return "/repo"
 }
 
-var loadPatterns = []string{"./x/...", "./app/upgrades/...", "./app/params/..."}
+var loadPatterns = []string{"./x/...", "./app/upgrades/...", "./app/params/...", "./app"}
 
 func LoadProgram(dir string) (*Program, error) {
 	cfg := &packages.Config{
